@@ -96,9 +96,10 @@ class C01(Machine):
             "was evaluated both before and after a mutator on the same "
             "object. Distinct: class + op names with argument patterns.")
     probe_names = ("query_after_mutation", "both_raised",
-                   "query_order_effect", "valid_mutator_raised",
                    "projection_twin_used", "discard_rebuild",
                    "multi_object", "reinit_mutator")
+    # informational (zero is fine): query_order_effect, valid_mutator_raised,
+    # nondeterministic_query, projection_not_comparable
     real_vs_stub = {"real": ["every memoising class with its public "
                              "constructor, mutators and queries; "
                              "core/cache.py with the LRU knob set before "
